@@ -223,7 +223,8 @@ theorem C09_gen_section_sizes (h : Nat) (hh : h < W32) :
   unfold Gen.Formulas.gen_CalculatePbmpSectionSize Gen.Formulas.gen_CalculatePixelHeaderLength Gen.Formulas.castU
     pbmpSectionSize pixelHeaderLength
   simp only [Gen.Layout.ts_DefaultPixelWidth, Gen.Layout.size_Tag, Gen.Layout.size_TilesetHeader, Gen.Layout.size_PpalHeader,
-    Gen.Layout.ts_DefaultPaletteHeaderSize, pixelWidth, sizeTag, sizeTilesetHeader, sizePpalHeader, paletteSectionSize, W32, e32, e64] at *
+    Gen.Layout.ts_DefaultPaletteHeaderSize, pixelWidth, sizeTag, sizeTilesetHeader, sizePpalHeader, paletteSectionSize, W32, e32, e64,
+    Int.reduceToNat, Int.reducePow, Int.reduceMod, Int.reduceMul, Int.reduceAdd, Int.reduceSub, Int.reduceDiv, Int.reduceNeg] at *
   omega
 
 /-- the model's constants are the frozen description's literals -/
